@@ -49,10 +49,10 @@ CHECKS = {
     "C14": ("exhaustive score tables through the library + numpy.diff along severity axes; sampled (uniform and macrovector-stratified) mixed-spelling pairs incl. steps of overridden base metrics",
             "Thorough: every pair of vectors one severity step apart in the complete tables (v4: 15,116,544 entries, ~150M pairs; v3 base/temporal/environmental in base and Modified spelling; v2 base/temporal). Quick: seeded classes x all one-step-up neighbours. Oracle is the order relation only.",
             "Severity orders typed from the specifications; v3.0 environmental score exempt for impact and requirement metrics as the statement says.", "4/C14"),
-    "C15": ("Hypothesis against model sub-vectors from the reference parser; re-assembly round trip",
+    "C15": ("Hypothesis against model sub-vectors from the reference parser; re-assembly round trip; sweep over every v2/v3 assignment of the mandatory metrics with sub-groups in random shapes; every object asked again after other accessor calls",
             "temporal_vector()/environmental_vector() must equal the model string exactly (each metric once, specification order, input value / ND / X / base value) and base + both sub-vectors must be accepted and score identically.",
             "Sampled over v2/v3 vectors.", "4/C15"),
-    "C16": ("model-based Hypothesis test of the dialogue + covering set of every legal value + deterministic long-retry scripts + atheris coverage-guided answer scripts (dialogue model inside the target)",
+    "C16": ("model-based Hypothesis test of the dialogue + covering set of every legal value + deterministic long-retry scripts + atheris coverage-guided answer scripts (dialogue model inside the target); answer pool with white space inside legal values and compatibility look-alikes of their letters",
             "Answer scripts (retries, junk, empty, case variants, truncation) are fed to the builder through a counting fake stdin; an independent dialogue model must consume the same number of answers and produce the same vector; the class must accept it; EOF surfaces as EOFError.",
             "Asking order taken from the returned vector (any order accepted); prompts are not asserted.", "4/C16"),
     "C17": ("atheris coverage-guided command lines + Hypothesis-generated command lines (incl. POSIX cluster spellings), in-process main() with patched argv/stdin/stdout (return value = exit status) + real subprocess sample under both launchers, 26 child environments, every environment variable named in the tree under test set to a dozen values, and working directories with a file named like the vector; API differential and dialogue model as oracle",
@@ -64,7 +64,7 @@ CHECKS = {
     "C19": ("Hypothesis stateful histories vs fresh interpreter processes + global-state snapshots (incl. before-import ambient state); deterministic settrace thread scheduler with drawn schedules (same or different jobs per thread, threads before the sequential reference, aperiodic tails), the same after cache pressure, and a priority (PCT-style) scheduler whose change points lie on lines that touch module-level mutable state; PYTHONHASHSEED sweep; decimal-context sweep vs exact oracles; ddmin with fresh-process judging for history-dependent failures",
             "Histories of API/CLI/interactive calls with a probe set and a deep snapshot of cvss.* module state, decimal context, sys.path and warnings.filters after every step, everything recomputed by a fresh process in another order; 2-4 threads under harness-owned line-level schedules plus a free-running stress; probe corpus under 5 hash seeds; 40 ambient decimal contexts (prec 28..200 x 8 rounding modes) against the exact oracles.",
             "Schedules at line granularity in cvss/*.py frames; decimal sticky flags excluded; lazy stdlib imports warmed up before the first snapshot.", "4/C19"),
-    "C20": ("differential execution of a Hypothesis-generated corpus on all 9 installed interpreters + /venv via a py2/py3-common probe",
+    "C20": ("differential execution of a Hypothesis-generated corpus on all 9 installed interpreters + /venv via a py2/py3-common probe; members of every v4 macrovector and seeded v2/v3 score classes, the calculator as a real child process of every interpreter, rejected vectors of mixed encodability, answers made of case-mapping special characters",
             "Every corpus item (constructor inputs valid/invalid incl. Unicode, RH strings, texts, interactive scripts, command lines) is executed under CPython 2.7.18, 3.6.15 ... 3.13.0; import success, accept/reject + error class and message, scores, severities, vectors, JSON content and sorted key order, extraction results, builder results and CLI output must equal the 3.12 reference.",
             "Covers the ten installed interpreters only; argv restricted to printable ASCII; hash() values and unsorted-dict order are not observables.", "4/C20"),
 }
